@@ -11,7 +11,7 @@ EXPLANATION = (
     "computed from the grammar: the variable list of a quantifier is greedy (`variable+`), so an operand that can start with a variable must be "
     "parenthesised; a unary minus before a positive numeral lexes as one numeral; an infix token whose proper prefix is another token that may "
     "continue the left operand (`<` of `<-` followed by `-`) is a token-split hazard. LIST: literal pieces of the list / annotation printers "
-    "occur in the grammar rules in order (theories, specifications, user guides, atoms, comparisons, quantifications, placeholders).")
+    "occur in the grammar rules in order (theories, specifications, user guides, atoms, comparisons, quantifications, placeholders). SHARED: a variable invented by a rewrite is a variable of the grammar (C07's chooser obligations).")
 UNDECIDED = ["full language equivalence of printer and parser", "user identifiers spelled like keywords"]
 ASSUMPTIONS = ["pest PEG semantics: ordered choice, greedy repetition, implicit whitespace outside atomic rules"]
 
